@@ -386,6 +386,86 @@ def run_r5(ctx, rule):
                     where = f.loc(ntl[0])
         rule.check(ok, "%s/linebreak-after-prefix" % mod, "%s: a line break (with comments) is accepted between the clause prefix and its literals" % mod, where)
 
+# ---- R7 -------------------------------------------------------------------------------------------
+def run_r7(ctx, rule):
+    """A scan that starts at a constant offset K > 0 steps over the K bytes in front of it without looking at
+    them.  That is only right where those bytes were examined on the way: each was matched against a byte
+    other than a line feed (`Some(b'c') = request_byte()`), or a literal without a line feed was matched at
+    offset 0 (`fixed(reader, 0, b"c ") != 0`), and nothing was consumed in between.  An unexamined byte may
+    be the line end itself: the scan would run into the next line."""
+    facts = ctx.facts
+    n = 0
+    for fn in sorted(facts.fns.values(), key=lambda f: f.id):
+        if fn.crate not in ("flussab_cnf", "flussab_aiger", "flussab_btor2"):
+            continue
+        sy = sym(fn)
+        c = cfg(fn)
+        for bb, t in fn.calls():
+            cn = norm(util.cname(t))
+            if not cn.startswith("flussab::text::") or cn.startswith(A.LR) or len(t["args"]) < 2:
+                continue
+            a = sy.operand(t["args"][1])
+            if a[0] != "c" or not isinstance(a[1], int) or a[1] <= 0 or a[1] > 16:
+                continue
+            K = a[1]
+            n += 1
+            key = "%s/%s/start=%d" % (norm(fn.id), short(cn), K)
+            known = {}
+            for s, fa in guards.decision_facts(fn, bb):
+                j = None
+                if fa[0] == "eq" and fa[1][0] == "f" and fa[1][1][0] == "v" and fa[1][1][2] == "Some" and fa[1][1][1][0] == "call":
+                    call = fa[1][1][1]
+                    cnm = norm(call[2])
+                    if cnm == DR + "request_byte":
+                        j = 0
+                    elif cnm in (DR + "request_byte_at_offset",) and len(call[3]) > 1 and call[3][1][0] == "c":
+                        j = call[3][1][1]
+                    if j is not None and fa[2] != 10:
+                        known[j] = (s, "byte %d == %r" % (j, chr(fa[2]) if 32 <= fa[2] < 127 else fa[2]))
+                elif fa[0] == "bool" and fa[1][0] == "call" and len(fa[1][3]) == 2 and ((fa[2] is True and fa[1][2].endswith(("PartialEq>::eq", "PartialEq::eq"))) or (fa[2] is False and fa[1][2].endswith(("PartialEq>::ne", "PartialEq::ne")))):
+                    # `request_byte() == Some(b'c')`
+                    for x, y in (fa[1][3], fa[1][3][::-1]):
+                        if x[0] == "call" and y[0] == "agg" and y[2] == "Some" and len(y[3]) == 1 and y[3][0][0] == "c" and isinstance(y[3][0][1], int):
+                            cnm = norm(x[2])
+                            if cnm == DR + "request_byte":
+                                j = 0
+                            elif cnm == DR + "request_byte_at_offset" and len(x[3]) > 1 and x[3][1][0] == "c":
+                                j = x[3][1][1]
+                            if j is not None and y[3][0][1] != 10:
+                                known[j] = (s, "byte %d == %r" % (j, chr(y[3][0][1]) if 32 <= y[3][0][1] < 127 else y[3][0][1]))
+                elif fa[0] == "cmp" and fa[1] == "Ne" and fa[2][0] == "call" and norm(fa[2][2]) == "flussab::text::fixed" and fa[3] == ("c", 0):
+                    args = fa[2][3]
+                    lit = args[2] if len(args) > 2 else None
+                    while lit is not None and lit[0] == "cast":
+                        lit = lit[2]
+                    if len(args) > 2 and args[1] == ("c", 0) and lit is not None and lit[0] == "cb":
+                        for j, ch in enumerate(lit[1]):
+                            if ch != 10:
+                                known[j] = (s, "literal %r matched at offset 0" % lit[1])
+                            else:
+                                break
+            missing = [j for j in range(K) if j not in known]
+            if missing:
+                rule.bad(key + "/unexamined-prefix", "%s starts %s at offset %d although byte %s in front of it was not matched against a byte other than a line feed on the way (an empty line would be stepped over)" % (short(norm(fn.id)), short(cn), K, missing), fn.loc(bb))
+                continue
+            stale = None
+            for j in range(K):
+                s = known[j][0]
+                between = set()
+                for x in fn.succs(s):
+                    between |= c.reachable_from(x, avoid=[s])
+                between = {x for x in between if x != bb and bb in c.reachable_from(x, avoid=[s])}
+                for x in between:
+                    tt = fn.term(x)
+                    if tt["k"] != "call":
+                        continue
+                    d = norm(util.cname(tt))
+                    if d.startswith(("core::", "<core::", "std::", "<std::")) or d in (DR + "request_byte", DR + "request_byte_at_offset", A.LR + "reader") or (d.startswith("flussab::text::") and not d.startswith(A.LR)):
+                        continue
+                    stale = d
+            rule.check(stale is None, key + "/examined-prefix", "%s starts %s at offset %d over examined bytes only (%s)%s" % (short(norm(fn.id)), short(cn), K, "; ".join(sorted(set(v[1] for v in known.values()))), "" if stale is None else " -- but %s is called in between" % short(stale)), fn.loc(bb))
+    rule.note("constant_offset_scans", n)
+
 
 def run(ctx):
     r1 = ctx.rule("C07-R1", "blank-normal form: cursor-deciding token parsers are attempted only where leading blanks have been consumed", floor=28)
@@ -398,6 +478,8 @@ def run(ctx):
     run_r4(ctx, r4)
     r5 = ctx.rule("C07-R5", "a clause may continue behind a line break and comment lines", floor=7)
     run_r5(ctx, r5)
+    r7 = ctx.rule("C07-R7", "a scan starting at a constant offset steps over examined bytes only (none of them can be the line end)", floor=2)
+    run_r7(ctx, r7)
     # R6: the byte classes the layout freedoms rest on (LF | CRLF, space | tab) -- the exact behaviour comparison
     # of C16-R3 for text::newline and text::tabs_or_spaces, and their schedule independence (no reader call
     # other than the look-ahead: a CRLF split between two reads must still be one line end)
